@@ -742,6 +742,21 @@ func (e *Enc) compileCallExpr(c *SpecCtx, x *Expr) CE {
 		}
 		dom := e.get(c.st, e.mapKey(mt, "dom"), e.mapSort(mt, "dom"))
 		return CE{T: fmt.Sprintf("(select (select %s %s) %s)", dom, m.T, k.T), Typ: tBool}
+	case "str": // str(b): the string conversion of a byte slice in the current state (what string(b) yields in code)
+		argn(1)
+		a := e.compile(c, x.Args[0])
+		if a.Typ != nil {
+			if _, ok := a.Typ.Underlying().(*types.Pointer); ok {
+				a = e.deref(c, a)
+			}
+		}
+		sl, ok := a.Typ.Underlying().(*types.Slice)
+		if !ok {
+			fail("%s: str() of non-slice", c.what)
+		}
+		e.B.declTop("strof", "(declare-fun strof ((Array Int Int) Int Int) Str)")
+		h := e.get(c.st, e.B.heapName(sl.Elem()), e.B.heapSort(sl.Elem()))
+		return CE{T: fmt.Sprintf("(strof (select %s (sarr %s)) (soff %s) (slen %s))", h, a.T, a.T, a.T), Typ: tStr}
 	case "get": // get(m, k): the value stored under k, read WITHOUT the absent-key default (meaningful under has(m, k)); keeps `ite` out of quantifier triggers
 		argn(2)
 		m := e.compile(c, x.Args[0])
